@@ -21,7 +21,7 @@ func C17(c *core.Ctx) error {
 		return err
 	}
 	quick := core.Quick(c.Tier)
-	exprs := []string{"", "a", "!a", "a && b", "a || b", "(a || b) && !c", "linux", "!linux && a"}
+	exprs := []string{"", "a", "!a", "a && b", "a || b", "(a || b) && !c", "linux", "!linux && a", "integration", "unit && !debug"}
 	if !quick {
 		exprs = append(exprs, "a && !b || c", "!(a && b)", "go1.18", "ignore", "a&&b")
 	}
